@@ -15,6 +15,7 @@ Ops:
   getmax            => rate sid tid
   setlimit 0|1      => ok | <layer>
   reqlimit <kinds|-> <nvideo> <naudio> => n limit idx...
+  racestress <ms>   => ok | bad:<what>    (Write vs a concurrent adjustLayer)
 <out> ::= err | none | sent seq mk ts payloadhex {; sent ...} [kfreq]
 Oracles are evaluated on the implementation's outputs (and on the flags of the
 input packet as the independent parser sees them).
@@ -352,6 +353,10 @@ def step (st : St) (op impl : List String) : St × Verdict :=
         ({ st' with orc := { st'.orc with limit := b, limitKeySeen := false } }, match ov with | some m => .oracle m | none => v)
       | none => (st, .badop "setlimit")
     else (st, .badop "unknown op")
+  | ["racestress", _] =>
+    -- op-atomic theorems (C04_feedback_keeps_layer) + the layer mutex: a concurrent adjustLayer never
+    -- changes sid/tid between two Writes
+    (st, if impl = ["ok"] then .ok else .oracle s!"C04: a concurrent adjustLayer moved the current layer between two packets: {" ".intercalate impl}")
   | ["layer"] => (withLayer st impl, cmp (layerS (unpack st.s.word)) impl)
   | ["adjust"] =>
     let s' := adjustLayer C st.s
